@@ -26,26 +26,7 @@ TECHNIQUE = "property-based testing with instrumented sub-term providers (Hypoth
 ASSUMPTIONS = ["Requests at negative sizes are allowed (they are below any bound and return nothing)."]
 
 
-def expected_shifts(rule):
-    """Independent re-derivation of the shifts of a (possibly derived) rule."""
-    from comb_spec_searcher.strategies.constructor import CartesianProduct, DisjointUnion
-    from comb_spec_searcher.strategies.rule import EquivalencePathRule, EquivalenceRule, ReverseRule
-
-    if isinstance(rule, EquivalencePathRule):
-        return (0,)
-    if isinstance(rule, ReverseRule):
-        orig = expected_shifts(rule.original_rule)
-        idx = rule.idx
-        p = -orig[idx]
-        return (p,) + tuple(s + p for i, s in enumerate(orig) if i != idx)
-    if isinstance(rule, EquivalenceRule):
-        if isinstance(rule.original_rule, ReverseRule):
-            return expected_shifts(rule.original_rule)[:1] if len(rule.original_rule.children) == 1 else (0,)
-        return (0,)
-    mins = [c.minimum_size_of_object() for c in rule.children]
-    if type(rule.strategy).__name__ in ("Peel", "Factor", "Shuffle"):  # the products of U1
-        return tuple(sum(mins) - m for m in mins)
-    return tuple(0 for _ in mins)
+from vf.speccheck import expected_shifts  # noqa: E402  (shared with C02's productivity oracle)
 
 
 def run_case(case, ctx, tier="quick"):
